@@ -193,6 +193,15 @@ type heap struct {
 	vals  []*live
 	usets []*uidSetEntry
 	muts  int
+	held  []heldOutput
+}
+
+// heldOutput is a byte slice handed out by the library (MarshalCedar / JSON) that the
+// caller keeps across later calls; it must stay what it was.
+type heldOutput struct {
+	what string
+	out  []byte // the slice as returned
+	copy string // its content when it was returned
 }
 
 func viol(kind, format string, a ...any) *core.Violation {
@@ -421,6 +430,12 @@ func (h *heap) step(t *verifsim.Tape) (string, *core.Violation) {
 			return "noop", nil
 		}
 		l := h.vals[t.Intn(len(h.vals))]
+		if l.m.kind != 's' && t.Bool() {
+			// deep twin: the same value rebuilt from its model, every set at every depth
+			// with its members in another order and with duplicates
+			h.add(&live{item: item{buildFromModel(l.m, t), l.m}})
+			return "deep twin of " + l.m.String() + " (same model, different construction order at every level)", nil
+		}
 		if s, ok := l.v.(types.Set); ok {
 			sl := s.Slice()
 			for i := len(sl) - 1; i > 0; i-- {
@@ -434,6 +449,39 @@ func (h *heap) step(t *verifsim.Tape) (string, *core.Violation) {
 			return "rebuild a set from its own members in another order with a duplicate", nil
 		}
 		return "noop", nil
+	}
+}
+
+// buildFromModel constructs a value equal to the model, choosing the member order of every
+// set (and adding a duplicate) from the tape, so that internal layouts differ between twins.
+func buildFromModel(m *mval, t *verifsim.Tape) types.Value {
+	switch m.kind {
+	case 's':
+		return scalars[m.idx]
+	case 'S':
+		vs := make([]types.Value, 0, len(m.elems)+1)
+		for _, e := range m.elems {
+			vs = append(vs, buildFromModel(e, t))
+		}
+		for i := len(vs) - 1; i > 0; i-- {
+			j := t.Intn(i + 1)
+			vs[i], vs[j] = vs[j], vs[i]
+		}
+		if len(vs) > 0 && t.Bool() {
+			vs = append(vs, vs[t.Intn(len(vs))])
+		}
+		return types.NewSet(vs...)
+	default:
+		rm := types.RecordMap{}
+		ks := make([]string, 0, len(m.fields))
+		for k := range m.fields {
+			ks = append(ks, k)
+		}
+		sort.Strings(ks)
+		for _, k := range ks {
+			rm[types.String(k)] = buildFromModel(m.fields[k], t)
+		}
+		return types.NewRecord(rm)
 	}
 }
 
@@ -576,6 +624,34 @@ func (h *heap) check(step string) *core.Violation {
 					return viol("equal-not-transitive", "after %s: %s = %s and %s = %s but not %s = %s", step, a.m, b.m, b.m, c.m, a.m, c.m)
 				}
 			}
+		}
+	}
+	// byte slices handed out at the previous step still say what they said
+	for _, ho := range h.held {
+		if string(ho.out) != ho.copy {
+			return viol("output-aliased", "after %s: the bytes returned earlier by %s changed under the caller's hands: %q, were %q", step, ho.what, ho.out, ho.copy)
+		}
+		// and the caller may scribble on them without affecting any value (checked below
+		// through the model comparison of every live value)
+		for i := range ho.out {
+			ho.out[i] = '#'
+		}
+	}
+	h.held = h.held[:0]
+	for _, l := range h.vals {
+		if l.m.kind == 's' {
+			continue
+		}
+		o := l.v.MarshalCedar()
+		h.held = append(h.held, heldOutput{what: "MarshalCedar of " + l.m.String(), out: o, copy: string(o)})
+		if j, err := json.Marshal(l.v); err == nil {
+			h.held = append(h.held, heldOutput{what: "MarshalJSON of " + l.m.String(), out: j, copy: string(j)})
+		}
+	}
+	for i, ho := range h.held {
+		// outputs obtained back to back must not overwrite each other either
+		if string(ho.out) != ho.copy {
+			return viol("output-aliased", "after %s: %s was overwritten by a later marshalling call (%d outputs held): %q, was %q", step, ho.what, i, ho.out, ho.copy)
 		}
 	}
 	// encodings of every live value decode to an equal value
